@@ -48,13 +48,15 @@ def server(table, cfg):
 
 
 def send(table, cfg, srv, m):
-    wsgi, seen, classes, Color, gseen = srv
+    wsgi, seen, classes, Color, gseen, hdrs = srv
     g = cfg['group']
     del seen[:]
+    del hdrs[:]
     if g == 'xml':
-        body = Z.xml_request(table, m)
+        body, hdr = Z.xml_request(table, m, header=cfg['fam'] != 'xml')
         if cfg['fam'] != 'xml':
-            body = '<e:Envelope xmlns:e="%s"><e:Body>%s</e:Body></e:Envelope>' % (E.E11 if cfg['fam'] == 'soap11' else E.E12, body)
+            body = '<e:Envelope xmlns:e="%s"><e:Header>%s</e:Header><e:Body>%s</e:Body></e:Envelope>' % (
+                E.E11 if cfg['fam'] == 'soap11' else E.E12, hdr, body)
         body = body.encode('utf8')
         env = {'REQUEST_METHOD': 'POST', 'PATH_INFO': '/', 'QUERY_STRING': '',
                'CONTENT_TYPE': 'application/soap+xml; charset=utf-8' if cfg['fam'] == 'soap12' else 'text/xml; charset=utf-8'}
@@ -72,7 +74,7 @@ def send(table, cfg, srv, m):
     res = E.send(wsgi, env, body)
     code = None if res['escape'] else E.fault_code(fam, res)
     fault = bool(code is not None or (res['status'] or 0) >= 400)
-    obs = {'ncalls': len(seen), 'args': [Z.shape(x, Color) for x in seen[0]] if seen else [], 'fault': fault,
+    obs = {'ncalls': len(seen), 'args': [Z.shape(x, Color) for x in seen[0]] if seen else [], 'hdr': Z.shape(hdrs[0], Color) if hdrs else ['nil'], 'fault': fault,
            'client': bool(code) and (code == 'Client' or code.startswith('Client.')), 'escape': bool(res['escape'])}
     info = {'request': (env.get('QUERY_STRING') or body[:700].decode('utf8', 'replace')), 'status': res['status'], 'code': code,
             'escape': res['escape'], 'response': res['body'][:300].decode('utf8', 'replace')}
@@ -80,7 +82,7 @@ def send(table, cfg, srv, m):
 
 
 def prime(cfg, srv):
-    wsgi, seen, classes, Color, gseen = srv
+    wsgi, seen, classes, Color, gseen, hdrs = srv
     body = Z.xml_prime()
     if cfg['fam'] != 'xml':
         body = '<e:Envelope xmlns:e="%s"><e:Body>%s</e:Body></e:Envelope>' % (E.E11 if cfg['fam'] == 'soap11' else E.E12, body)
@@ -102,6 +104,10 @@ def run(ctx):
     for cfg in configs(ctx.quick):
         srv = server(table, cfg)
         ms = [m for m in table['mutants'] if m['fam'] == cfg['group']]
+        if cfg['fam'] == 'xml':
+            ms = [m for m in ms if m['pos']['path'][0] != '@hdr']          # XmlDocument has no envelope, hence no header
+        if cfg['group'] == 'dict' and cfg['fam'] != 'yaml':
+            ms = [m for m in ms if m['arg'][0] not in Z.YAML_ONLY]         # kinds only YAML can spell
         if cfg['group'] == 'xml' and ctx.quick and cfg['validator'] == 'lxml' and not cfg['poly']:
             ms = ms[ctx.seed % 2::2]
         # the valid request first: it must be accepted by every configuration
